@@ -203,6 +203,7 @@ theorem sendPacket_ctl (e : Endpoint) (p : Pkt) (hk : e.kexComplete = false)
 /-- the endpoint `send_newkeys` flushes the deferred packets from -/
 def nkBase (e1 : Endpoint) : Endpoint :=
   { e1 with sendEpoch := e1.sendEpoch + 1, nextRecvReady := true, kexActive := false, kexComplete := true,
+            rekeyDue := false,
             sessionId := match e1.sessionId with
               | some h => some h
               | none => some e1.sendEpoch,
